@@ -459,22 +459,20 @@ theorem invTuple_single (outer p rest : Path) (u : Val) (hu : u.isDict = false)
     simp only [nest]
     rw [updateIn_empty _ _ _ (mergeMultiInto_single k2 _), nest_append]; rfl
 
+/-- after the repair of CF-A the glob branch treats a child exactly like a port wired to
+`path + (child,)` -/
+theorem invGlobChild_eq_invTuple (outer p : Path) (c : String) (cu inv : Val) :
+    invGlobChild outer p c cu inv = invTuple outer (p ++ [c]) cu inv := by
+  unfold invGlobChild invTuple
+  simp only [List.append_assoc]
+
 theorem invGlobChild_single (outer p rest : Path) (c : String) (hc : c ≠ "..") (u : Val)
     (hu : u.isDict = false) :
     invGlobChild outer p c (nest rest u) (.dict []) =
       .ok (nest (normalize (outer ++ p) ++ [c] ++ rest) u) := by
-  have hn : normalize (outer ++ p ++ [c]) = normalize (outer ++ p) ++ [c] :=
-    normalize_append_clean _ _ (Clean.single hc)
-  cases rest with
-  | nil =>
-    unfold invGlobChild
-    simp only [nest, hn, List.append_nil]
-    cases u <;> simp [Val.isDict] at hu <;> exact assocPath_empty _ _ (by simp)
-  | cons k2 r2 =>
-    unfold invGlobChild
-    simp only [nest, hn]
-    rw [updateIn_empty _ _ _ (mergeInto_single k2 _)]
-    simp [nest_append, nest]
+  have hn : normalize (outer ++ (p ++ [c])) = normalize (outer ++ p) ++ [c] := by
+    rw [← List.append_assoc]; exact normalize_append_clean _ _ (Clean.single hc)
+  rw [invGlobChild_eq_invTuple, invTuple_single outer (p ++ [c]) rest u hu (by rw [hn]; simp), hn]
 
 theorem foldChildren_single (f : String → Val → Val → Except Err Val) (c : String) (cu inv : Val) :
     foldChildren f [(c, cu)] inv = f c cu inv := by
